@@ -228,3 +228,27 @@ Proof.
 Qed.
 
 End MiniMulti.
+
+Section MiniLoop.
+
+Variable inflate : list byte -> option (list byte).
+
+(* one DoInput(maxBytes) call = the consumed prefix of the queue, packet by packet *)
+Theorem mrecv_loop_prefix : forall rc queue maxBytes total out rest,
+  mrecv_loop inflate rc maxBytes total queue = (out, rest) ->
+  exists n, rest = skipn n queue /\ mrecv_all inflate rc (firstn n queue) = out.
+Proof.
+  intros rc. induction queue as [|[a p] q IH]; intros mb tot out rest; cbn [mrecv_loop].
+  - intros E. injection E as <- <-. exists 0%nat. auto.
+  - destruct (tot <? mb).
+    2:{ intros E. injection E as <- <-. exists 0%nat. auto. }
+    destruct (lenN (takeN (rc_mtu rc) p) =? 0) eqn:Hz.
+    + intros E. injection E as <- <-. exists 1%nat. split; [reflexivity|].
+      cbn [firstn mrecv_all]. unfold mrecv_packet. rewrite Hz. reflexivity.
+    + destruct (mrecv_loop inflate rc mb (tot + lenN (takeN (rc_mtu rc) p)) q) as [o2 r2] eqn:E2.
+      intros E. injection E as <- <-.
+      destruct (IH _ _ _ _ E2) as (n & Hr & Ha). exists (S n). split; [exact Hr|].
+      cbn [firstn mrecv_all]. now rewrite Ha.
+Qed.
+
+End MiniLoop.
